@@ -216,7 +216,11 @@ func chainBody(c *mc.Ctx, n int, leafKey string, p purposeKind, id string) {
 					})
 					return e
 				})
-				expect("Sign("+mt+")", wantTime, err)
+				wantSign := wantTime
+				if d.signingTime != nil && d.lessThanASecondLate == d.signingTime {
+					wantSign = wantNoTime // a sign request carries whole seconds: this instant is signed as the NotAfter second, which is inside
+				}
+				expect("Sign("+mt+")", wantSign, err)
 			}
 		}
 	case purposeTS:
